@@ -1109,6 +1109,11 @@ def run(res, tier):
     header_coordinates(facts, res)
     res.rule("C06.9 leaf assignment: particles are sorted by the index getIndexFromPosition gave them (a packed key must keep all 63 index bits, in order, above everything else - bit provenance) and leaves are cut where that key changes")
     leaf_assignment(facts, res)
+    res.rule("C06.12 the leaf index stored for a particle is the exact interleave of its grid coordinates (rule C11.4 bit provenance of getIndexFromBoxPos / getBoxPosFromIndex for Dim 1..4): a conversion that drops or moves a bit files the particle under another cell's index")
+    import c11 as _c11
+    _sub = tbf.Result("C11")
+    _c11.bit_laws(facts, _sub)
+    tbf.reexport(res, _sub, ("C11.4",), "C06.12.index-of-coordinates", min_instances=8)
     res.rule("C06.10 row addressing: the pointer the accessors hand out for row v of a particle block is the viewer's own address of an item of row v, moved along that row only (the constructor writes value (p, v) at getItem(p, v); a hand-made row stride reads other bytes when it differs from the viewer's aligned leading dimension)")
     row_addressing(facts, res)
     narrowing(res, tier)
